@@ -108,6 +108,8 @@ type Object struct {
 	AfterFns  []Value
 	Err       Value
 	Tag       string
+	OfferV    Value // a pending sender offered by the harness (scripted environment): value and guard
+	OfferG    *Term
 	ViewOf    *Object  // array view: cells live inside ViewOf at ViewPath (an array embedded in a struct that was sliced)
 	ViewPath  []PathEl
 	Live      *Term // pooled arrays: disjunction of the guards under which the object was allocated
